@@ -6,6 +6,7 @@ import Mouette.Lemmas.VolBuckets
 import Mouette.Lemmas.VolOrient
 import Mouette.Lemmas.VolLazyInv
 import Mouette.Lemmas.VolLazyClear
+import Mouette.Lemmas.VolLazyWorld
 import Mouette.Lemmas.VolSpec
 import Mouette.Lemmas.VolConforming
 import Mouette.Lemmas.VolBorder
@@ -27,7 +28,7 @@ open Mouette.Vol Mouette.VolLazy
 namespace G
 export Mouette.Generated.C03 (adjTable subFace cellAdjLen cellAdjRange completedTable cellFacesTable
   bcOrientArgs bcOrientKeep bcOrientFlip sbOrientArgs sbOrientKeep sbOrientFlip volumeGuards initAttrs clearAttrs
-  clearId meshGuards meshinitAttrs walkLoops edgeMapDomain)
+  clearId meshGuards meshinitAttrs walkLoops edgeMapDomain boundaryMapsRebound)
 end G
 
 /-! ## 1. Translated fragments (finite tables: `decide`) -/
@@ -101,6 +102,13 @@ theorem walkLoops_eq_model : G.walkLoops = [[1, 1, 1], [1, -1, -1]] := by decide
 the model's `m2bEdgeTable` maps over `boundaryEdges` -/
 theorem edgeMapDomain_eq_model : G.edgeMapDomain = "boundary_edges" := by decide
 
+/-- no state at class level in the connectivity hierarchy (the translator refuses any class-body assignment in
+`VolumeMesh`, its `_Connectivity`, its `_BoundaryConnectivity`, `SurfaceMesh._Connectivity`, `PolyLine._Connectivity`), and
+the six volume↔boundary index maps are rebound to fresh `dict()`s on `self` whenever a boundary connectivity is built:
+they are per-instance state -/
+theorem boundary_maps_are_instance_state :
+    G.boundaryMapsRebound = ["b2m_edge", "b2m_face", "b2m_vertex", "m2b_edge", "m2b_face", "m2b_vertex"] := by decide
+
 /-! ## 2. Lazy caches: no history of queries can read a missing or `None` cache -/
 
 /-- Generic: a well-guarded table is safe for EVERY history (any length, any order, `clear` included). -/
@@ -140,6 +148,39 @@ theorem volume_history_after_clear (qs qs' : List Nat) (hq : ∀ q ∈ qs, q ∈
     G.volumeGuards.run (G.volumeGuards.finalState G.volumeGuards.fresh.1 (qs ++ [G.clearId])) qs'
       = G.volumeGuards.run G.volumeGuards.fresh.1 qs' :=
   (history_after_clear_eq_fresh _ volumeGuards_wellGuarded volumeGuards_clear_restores_fresh qs qs' hq).2
+
+/-- **instances are isolated** (a world of two objects of any guard table): in every interleaving of queries on two
+instances, each instance's outcomes are those of its own queries run alone — using another mesh never changes what a
+mesh answers. (The model has no state outside the object; `boundary_maps_are_instance_state` ties that to the source.) -/
+theorem instances_isolated (t : Table) (sa sb : State) (h : List (Who × Nat)) :
+    Table.outcomesOf .a (t.runWorld (sa, sb) h) = t.run sa (Table.queriesOf .a h)
+    ∧ Table.outcomesOf .b (t.runWorld (sa, sb) h) = t.run sb (Table.queriesOf .b h) :=
+  t.instances_isolated sa sb h
+
+/-- hence two volume connectivities used side by side, in any interleaving, never fail -/
+theorem volume_two_instances_safe (h : List (Who × Nat)) (hq : ∀ p ∈ h, p.2 ∈ G.volumeGuards.alphabet) :
+    ∀ o ∈ G.volumeGuards.runWorld (G.volumeGuards.fresh.1, G.volumeGuards.fresh.1) h, o.2 = .ok := by
+  intro o ho
+  obtain ⟨ha, hb⟩ := instances_isolated G.volumeGuards G.volumeGuards.fresh.1 G.volumeGuards.fresh.1 h
+  have hmemq : ∀ w, ∀ q ∈ Table.queriesOf w h, q ∈ G.volumeGuards.alphabet := by
+    intro w q hqm
+    simp only [Table.queriesOf, List.mem_filterMap] at hqm
+    obtain ⟨p, hp, hpe⟩ := hqm
+    split at hpe
+    · cases hpe; exact hq p hp
+    · cases hpe
+  rcases o with ⟨w, oc⟩
+  cases w with
+  | a =>
+    have : oc ∈ Table.outcomesOf .a (G.volumeGuards.runWorld (G.volumeGuards.fresh.1, G.volumeGuards.fresh.1) h) := by
+      simp only [Table.outcomesOf, List.mem_filterMap]; exact ⟨(.a, oc), ho, by simp⟩
+    rw [ha] at this
+    exact volume_history_safe _ (hmemq .a) oc this
+  | b =>
+    have : oc ∈ Table.outcomesOf .b (G.volumeGuards.runWorld (G.volumeGuards.fresh.1, G.volumeGuards.fresh.1) h) := by
+      simp only [Table.outcomesOf, List.mem_filterMap]; exact ⟨(.b, oc), ho, by simp⟩
+    rw [hb] at this
+    exact volume_history_safe _ (hmemq .b) oc this
 
 /-- the border/boundary caches of `VolumeMesh` itself (`boundary_faces`, …, `is_vertex_on_border`, `is_edge_on_border`,
 `enable_boundary_connectivity`; table translated from the class body, properties included): every history of its
